@@ -46,7 +46,7 @@ FIXED_KINDS = {"IF": "KW_if", "DO": "KW_do", "END_KW": "KW_end", ";": "SEMI", "W
 
 
 # characters no token pattern matches: punctuation, control characters, an unassigned and a private-use code point
-FOREIGN_CHARS = "@$?!~`\x00\x07\x7f\u0378\ue000"
+FOREIGN_CHARS = "@$?!~`\x00\x07\x7f\u0378\ue000\ufeff"      # (the last one, a byte order mark, is put at the very start of the text)
 
 
 def le(a, b):
@@ -305,6 +305,8 @@ def evaluate(case):
             k = inp["foreign"][0] % len(tokens)
             ch = FOREIGN_CHARS[inp["foreign"][1] % len(FOREIGN_CHARS)]
             (l, c) = pos[k][0]
+            if ch == "\ufeff":
+                (l, c) = (1, 1)
             bad_lines = list(lines)
             bad_lines[l - 1] = bad_lines[l - 1][:c - 1] + ch + bad_lines[l - 1][c - 1:]
             if as_list:
@@ -448,7 +450,7 @@ def st_case(draw, max_tokens=14):
                 "syn": draw(st.booleans()), "kw": False, "inputs": inputs, "smart": draw(st.booleans())}
         for inp in case["inputs"]:
             if draw(st.integers(0, 7)) == 0:
-                inp["foreign"] = [draw(st.integers(0, 20)), draw(st.integers(0, 10))]
+                inp["foreign"] = [draw(st.integers(0, 20)), draw(st.integers(0, 12))]
         return case
     if which == "fixed":
         g = _fixed_grammar()
@@ -463,7 +465,7 @@ def st_case(draw, max_tokens=14):
                 "inputs": c["inputs"][:5], "smart": draw(st.booleans())}
     for inp in case["inputs"]:
         if draw(st.integers(0, 7)) == 0:
-            inp["foreign"] = [draw(st.integers(0, 20)), draw(st.integers(0, 10))]
+            inp["foreign"] = [draw(st.integers(0, 20)), draw(st.integers(0, 12))]
     return case
 
 
